@@ -1,4 +1,4 @@
-import PoolModel.C17Acceptor
+import PoolProofs.C17Spec
 /-! Helper lemmas for C17 (acceptor part). -/
 set_option linter.unusedSimpArgs false
 namespace Pool.C17
@@ -140,5 +140,48 @@ theorem odd_iff_not_private (flags : Nat) : flags % 2 = 1 ↔ isPrivateChan flag
     have h0 : ¬ flags % 2 = 0 := fun hh => by
       have := h.mpr hh; rw [hp] at this; exact Bool.noConfusion this
     simp; omega
+
+theorem checkCommitType_none_iff (ct : Nat) (c : Option Nat) :
+    checkCommitType ct c = none ↔ CommitTypeOK ct c := by
+  unfold checkCommitType CommitTypeOK
+  have hpd : Gen.C17.chanTypePeerDependent = 0 := rfl
+  have hse : Gen.C17.chanTypeScriptEnforced = 1 := rfl
+  have hst : Gen.C17.chanTypeSimpleTaproot = 2 := rfl
+  rw [hpd, hse, hst]
+  by_cases h0 : ct = 0
+  · simp [h0]
+  · by_cases h1 : ct = 1
+    · subst h1
+      cases c with
+      | none => simp
+      | some v => by_cases hv : v = lnwCommitScriptEnforcedLease <;> simp [hv]
+    · by_cases h2 : ct = 2
+      · subst h2
+        cases c with
+        | none => simp
+        | some v => by_cases hv : v = lnwCommitSimpleTaproot <;> simp [hv]
+      · simp [h0, h1, h2]
+
+
+theorem lookup_step (m : Expected) (hist : List RegOp) (op : RegOp) (hnd : NoDupKeys m)
+    (hm : ∀ pid, lookup m pid = lastReg hist pid) (pid : Bytes) :
+    lookup (regStep m op) pid = lastReg (op :: hist) pid := by
+  cases op with
+  | reg p b =>
+    simp only [regStep, lastReg]
+    rw [lookup_registered _ _ _ _ hnd, hm]
+  | rm n =>
+    simp only [regStep, lastReg]
+    rw [lookup_removed _ _ _ hnd, hm]
+
+theorem lookup_foldl (ops : List RegOp) (m : Expected) (hist : List RegOp) (hnd : NoDupKeys m)
+    (hm : ∀ pid, lookup m pid = lastReg hist pid) (pid : Bytes) :
+    lookup (ops.foldl regStep m) pid = lastReg (ops.reverse ++ hist) pid := by
+  induction ops generalizing m hist with
+  | nil => simpa using hm pid
+  | cons op rest ih =>
+    simp only [List.foldl_cons, List.reverse_cons, List.append_assoc, List.singleton_append]
+    exact ih (regStep m op) (op :: hist) (nodup_step m op hnd) (lookup_step m hist op hnd hm)
+
 
 end Pool.C17
